@@ -93,8 +93,10 @@ def impl_trace(shape, cfg):
     for n in KERN:
         setattr(S.core, n, mk(n))
     try:
-        out = emg3d.solve(model, sfield, verb=1, log=-1, return_info=True, sslsolver=False,
-                          plain=False, **cfg)
+        kw = dict(cfg)
+        ssl = kw.pop('sslsolver', False)
+        out = emg3d.solve(model, sfield, verb=1, log=-1, return_info=True, sslsolver=ssl,
+                          plain=False, **kw)
     finally:
         for n, f in orig.items():
             setattr(S, n, f)
@@ -180,7 +182,9 @@ def coq_trace_case(shape, cfg, ncyc):
     return (K.CASE_HEADER + "From V Require Import Gen.SolverHelpers Model.Hierarchy.\n" + ENC +
             f"Definition c0 : cfg := {c}.\n"
             f"Eval vm_compute in (parse_pattern {sc_t} {sc_v} 3 [1;2;3], parse_pattern {lr_t} {lr_v} 7 [4;5;6]).\n"
-            f"Eval vm_compute in flat_map enc_cycle (outer_cycles c0 {zl(psc)} {zl(plr)} {ncyc}).\n"
+            + (f"Eval vm_compute in flat_map enc_cycle (outer_cycles_calls c0 {zl(psc)} {zl(plr)} "
+               f"{max(len(psc), len(plr))} {ncyc}).\n" if cfg.get('sslsolver') else
+               f"Eval vm_compute in flat_map enc_cycle (outer_cycles c0 {zl(psc)} {zl(plr)} {ncyc}).\n") +
             f"Eval vm_compute in map kern4 [0;1;2;3;4;5;6;7].\n"
             f"Eval vm_compute in current_lr_dir {plr[0]} {shape[0]} {shape[1]} {shape[2]}.\n")
 
@@ -228,13 +232,23 @@ def trace_correspondence(ctx, n, dis):
                                 nu_pre=1, nu_coarse=1, nu_post=1, maxit=1, tol=1e-30)),
               ((3, 5, 48), dict(cycle='W', semicoarsening=True, linerelaxation=0, clevel=3, nu_init=0,
                                 nu_pre=1, nu_coarse=1, nu_post=0, maxit=3, tol=1e-30))]
+    # multigrid as PRECONDITIONER of a Krylov solver: every preconditioner call runs
+    # max(len(patterns)) cycles and ends through the cycle limit; the directions must keep
+    # advancing once per fine-grid cycle ACROSS the calls (one global cycle count)
+    fixed += [((8, 4, 6), dict(cycle='F', semicoarsening=True, linerelaxation=0, clevel=-1, nu_init=0,
+                               nu_pre=1, nu_coarse=1, nu_post=1, maxit=2, tol=1e-30, sslsolver='bicgstab')),
+              ((6, 8, 4), dict(cycle='V', semicoarsening=12, linerelaxation=456, clevel=-1, nu_init=0,
+                               nu_pre=1, nu_coarse=1, nu_post=1, maxit=2, tol=1e-30, sslsolver='cgs'))]
     cases = list(fixed)
     while len(cases) < n:
         # at least one long direction so that three and more levels occur
         shape = [rng.choice([2, 3, 4, 5, 6, 8, 10, 12]) for _ in range(3)]
         if rng.random() < 0.5:
             shape[rng.randrange(3)] = rng.choice([16, 24, 32, 48])
-        cases.append((tuple(shape), rand_cfg(rng)))
+        cfg = rand_cfg(rng)
+        if rng.random() < 0.2:
+            cfg.update(sslsolver=rng.choice(['bicgstab', 'cgs']), nu_init=0, maxit=rng.choice([1, 2]))
+        cases.append((tuple(shape), cfg))
     texts, runs = [], []
     crashed = set()
     for i, (shape, cfg) in enumerate(cases):
@@ -545,6 +559,7 @@ def check_order(shape, cfg, ev, info, cnt):
     psc = pattern(cfg['semicoarsening'], [1, 2, 3], 3)
     seq = []
     cycles = []
+    sc0 = []          # sc_dir of the level-0 restriction of every fine-grid cycle that has one
     depth = 0
     for e in ev:
         if e[0] == 'S' and e[1] == 0 and e[3] == cfg['nu_init'] and not seq and not cycles \
@@ -554,6 +569,8 @@ def check_order(shape, cfg, ev, info, cnt):
                 cfg = dict(cfg, init_done=True)
                 continue
         if e[0] == 'R':
+            if e[1] == 0:
+                sc0.append(int(e[2]))
             seq.append(('R', e[1]))
         elif e[0] == 'P':
             seq.append(('P', e[1]))
@@ -567,6 +584,11 @@ def check_order(shape, cfg, ev, info, cnt):
         bottom = max(cnt[d] for d in dirs)
         if bottom == 0:
             continue
+        got_sc = sc0.pop(0) if sc0 else None
+        if got_sc != scd:
+            return dict(signature='semicoarsening direction does not advance once per fine-grid cycle',
+                        shape=list(shape), cfg={a: str(b) for a, b in cfg.items() if a != 'init_done'},
+                        cycle=k, observed=str(got_sc), required=str(scd))
         want = [x for x in textbook_rp(cfg['cycle'], bottom, 0) if x[0] != 'C']
         got = cycles.pop(0) if cycles else None
         if got != want:
@@ -584,12 +606,19 @@ def search(ctx, broken):
     fixed = [((48, 5, 3), dict(base_cfg, cycle='F', semicoarsening=123, linerelaxation=4, clevel=2)),
              ((5, 3, 32), dict(base_cfg, cycle='F', semicoarsening=32, linerelaxation=0)),
              ((3, 16, 5), dict(base_cfg, cycle='W', semicoarsening=12, linerelaxation=7)),
-             ((16, 8, 4), dict(base_cfg, cycle='F', semicoarsening=True, linerelaxation=True))]
+             ((16, 8, 4), dict(base_cfg, cycle='F', semicoarsening=True, linerelaxation=True)),
+             # multigrid as preconditioner: directions keep advancing across the calls
+             ((8, 4, 6), dict(base_cfg, cycle='F', semicoarsening=True, linerelaxation=0, maxit=2,
+                              sslsolver='bicgstab')),
+             ((6, 8, 4), dict(base_cfg, cycle='V', semicoarsening=12, linerelaxation=456, maxit=2,
+                              sslsolver='cgs'))]
     for t in range(n):
         shape = tuple(rng.choice([2, 3, 4, 5, 6, 7, 8, 10, 12, 16, 24, 32]) for _ in range(3))
         if shape[0] * shape[1] * shape[2] > 4000:
             shape = (shape[0], 4, 3)
         cfg = rand_cfg(rng)
+        if rng.random() < 0.15:
+            cfg.update(sslsolver=rng.choice(['bicgstab', 'cgs']), nu_init=0, maxit=rng.choice([1, 2]))
         if t < len(fixed):
             shape, cfg = fixed[t]
         try:
@@ -612,7 +641,7 @@ def replay(ctx, payload):
     for k, v in fi['cfg'].items():
         if v in ('True', 'False'):
             cfg[k] = (v == 'True')
-        elif k == 'cycle':
+        elif k in ('cycle', 'sslsolver'):
             cfg[k] = v
         elif k == 'tol':
             cfg[k] = float(v)
